@@ -3,8 +3,9 @@ C08 — Acknowledge and event packet decoding is total and faithful.
 
 Property theorems only; helper lemmas are in `Proofs/C08.lean`.  Every statement
 quantifies over all byte strings (any length), both build profiles and all typed views.
-The model (`Model/Ack.lean`) describes `ack.rs` / `event.rs` after the two `fix:` commits
-(namespace mask `0b11`; WriteMemStacked refuses `scd_len % 4 ≠ 0`).
+The model (`Model/Ack.lean`) describes `ack.rs` / `event.rs` after the three `fix:` commits
+(namespace mask `0b11`; WriteMemStacked refuses `scd_len % 4 ≠ 0`; WriteMem / Pending refuse
+`scd_len < 4`).
 -/
 import CamVerif.Proofs.C08
 import CamVerif.Gen.AckTables
@@ -115,7 +116,7 @@ theorem ack_views_total (p : Profile) (buf : Bytes) (ccd : AckCcd) :
     WriteMemStacked.parse p buf ccd ≠ .panic := by
   have hd : parseDataScd buf ccd ≠ .panic := by
     unfold parseDataScd; split <;> intro h <;> cases h
-  have hv : parseReservedU16 buf ≠ .panic := by
+  have hv : parseReservedU16 buf ccd ≠ .panic := by
     rw [parseReservedU16_eq]; repeat' split
     all_goals intro h; cases h
   refine ⟨hd, hv, hv, hd, ?_⟩
@@ -201,14 +202,16 @@ theorem ack_parse_faithful (p : Profile) (bs : Bytes) (pk : AckPacket)
 view returns `Ok` its payload is what the reference extracts from the same bytes, and
 payload slices lie inside the buffer:
 ReadMem / ReadMemStacked data = `buffer[12, 12+scd_len)`;
-WriteMem length / Pending timeout = the u16 at 14 with reserved (12..14) = 0;
+WriteMem length / Pending timeout = the reference view `valueViewOf`: the u16 at 14 with
+reserved (12..14) = 0, inside the SCD the header declares (`4 ≤ scd_len`) and the buffer;
 WriteMemStacked lengths = the `scd_len/4` u16s at `12+4i+2` with every reserved = 0. -/
 theorem ack_views_faithful (p : Profile) (bs : Bytes) (pk : AckPacket)
     (h : AckPacket.parse p bs = .ok pk) :
     (∀ d, (ReadMem.parse pk.rawScd pk.ccd = .ok d ∨ ReadMemStacked.parse pk.rawScd pk.ccd = .ok d) →
       d = dataOf bs ∧ d.length = scdLenOf bs ∧ 12 + scdLenOf bs ≤ bs.length) ∧
     (∀ v, (WriteMem.parse pk.rawScd pk.ccd = .ok v ∨ Pending.parse pk.rawScd pk.ccd = .ok v) →
-      v = valueOf bs ∧ reservedOf bs = 0 ∧ 16 ≤ bs.length) ∧
+      valueViewOf bs = some v ∧ v = valueOf bs ∧ reservedOf bs = 0 ∧ 4 ≤ scdLenOf bs ∧
+      16 ≤ bs.length) ∧
     (∀ ls, WriteMemStacked.parse p pk.rawScd pk.ccd = .ok ls →
       ls = stackedLengthsOf bs ∧ scdLenOf bs % 4 = 0 ∧ 12 + scdLenOf bs ≤ bs.length ∧
       ∀ i, i < scdLenOf bs / 4 → stackedReservedOf bs i = 0) := by
@@ -230,20 +233,26 @@ theorem ack_views_faithful (p : Profile) (bs : Bytes) (pk : AckPacket)
       · rw [← hd', hlen]; rfl
       · rw [← hd', hlen]; exact slice_length bs 12 _ hb
   · intro v hv
-    have hv' : parseReservedU16 (bs.drop 12) = .ok v := by
+    have hv' : parseReservedU16 (bs.drop 12) pk.ccd = .ok v := by
       rcases hv with hv | hv <;> exact hv
     rw [parseReservedU16_eq] at hv'
-    simp only [List.length_drop, uintAt_drop] at hv'
+    simp only [List.length_drop, uintAt_drop, hlen] at hv'
     split at hv'
     · cases hv'
-    · split at hv'
+    · rename_i hsl
+      split at hv'
       · cases hv'
-      · rename_i hr
-        split at hv'
+      · split at hv'
         · cases hv'
-        · injection hv' with hv'
-          refine ⟨hv'.symm, ?_, by omega⟩
-          simpa [reservedOf] using hr
+        · rename_i hr
+          split at hv'
+          · cases hv'
+          · injection hv' with hv'
+            have hres : reservedOf bs = 0 := by simpa [reservedOf] using hr
+            have hval : v = valueOf bs := hv'.symm
+            refine ⟨?_, hval, hres, by omega, by omega⟩
+            unfold valueViewOf
+            rw [if_pos ⟨by omega, by omega, hres⟩, hval]
   · intro ls hls
     simp only [WriteMemStacked.parse] at hls
     split at hls
@@ -323,8 +332,9 @@ theorem ack_accepts_conforming (p : Profile) (bs : Bytes) (k : StatusClass) (kd 
   rfl
 
 /-- **accepts_conforming (typed views)**: on a packet whose SCD is present as declared
-(`12 + scd_len ≤ |buffer|`) the data views succeed; with reserved = 0 and 4 SCD bytes
-the WriteMem / Pending views succeed; with `scd_len` a multiple of 4, all entries
+(`12 + scd_len ≤ |buffer|`) the data views succeed; whenever the reference view
+`valueViewOf` exists (`4 ≤ scd_len`, 4 SCD bytes present, reserved = 0) the WriteMem /
+Pending views succeed with its value; with `scd_len` a multiple of 4, all entries
 present and every reserved field 0 the WriteMemStacked view succeeds — each returning the
 reference extraction. -/
 theorem ack_views_accept_conforming (p : Profile) (bs : Bytes) (ccd : AckCcd)
@@ -332,9 +342,8 @@ theorem ack_views_accept_conforming (p : Profile) (bs : Bytes) (ccd : AckCcd)
     (12 + scdLenOf bs ≤ bs.length →
       ReadMem.parse (bs.drop 12) ccd = .ok (dataOf bs) ∧
       ReadMemStacked.parse (bs.drop 12) ccd = .ok (dataOf bs)) ∧
-    (16 ≤ bs.length → reservedOf bs = 0 →
-      WriteMem.parse (bs.drop 12) ccd = .ok (valueOf bs) ∧
-      Pending.parse (bs.drop 12) ccd = .ok (valueOf bs)) ∧
+    (∀ v, valueViewOf bs = some v →
+      WriteMem.parse (bs.drop 12) ccd = .ok v ∧ Pending.parse (bs.drop 12) ccd = .ok v) ∧
     (scdLenOf bs % 4 = 0 → 12 + scdLenOf bs ≤ bs.length →
       (∀ i, i < scdLenOf bs / 4 → stackedReservedOf bs i = 0) →
       WriteMemStacked.parse p (bs.drop 12) ccd = .ok (stackedLengthsOf bs)) := by
@@ -346,13 +355,20 @@ theorem ack_views_accept_conforming (p : Profile) (bs : Bytes) (ccd : AckCcd)
       rw [if_neg (by simp only [List.length_drop, hlen]; omega), hlen]
       rfl
     exact ⟨this, this⟩
-  · intro h16 hr
-    have : parseReservedU16 (bs.drop 12) = .ok (valueOf bs) := by
-      rw [parseReservedU16_eq]
-      simp only [List.length_drop, uintAt_drop]
-      rw [if_neg (by omega), if_neg (by simpa [reservedOf] using hr), if_neg (by omega)]
-      rfl
-    exact ⟨this, this⟩
+  · intro v hview
+    unfold valueViewOf at hview
+    split at hview
+    · rename_i hc
+      obtain ⟨h4, h16, hr⟩ := hc
+      injection hview with hview
+      have : parseReservedU16 (bs.drop 12) ccd = .ok v := by
+        rw [parseReservedU16_eq]
+        simp only [List.length_drop, uintAt_drop, hlen]
+        rw [if_neg (by omega), if_neg (by omega), if_neg (by simpa [reservedOf] using hr),
+          if_neg (by omega), ← hview]
+        rfl
+      exact ⟨this, this⟩
+    · cases hview
   · intro hm hb hres
     simp only [WriteMemStacked.parse, hlen, hm, ne_eq, not_true_eq_false, if_false]
     have hk : scdLenOf bs = 4 * (scdLenOf bs / 4) := by omega
@@ -409,7 +425,7 @@ encoded list of lengths (any number of entries). -/
 theorem ack_views_accept_encoded (p : Profile) (ccd : AckCcd) :
     (∀ scd : Bytes, ccd.scdLen = scd.length →
       ReadMem.parse scd ccd = .ok scd ∧ ReadMemStacked.parse scd ccd = .ok scd) ∧
-    (∀ v, v < 2 ^ 16 →
+    (∀ v, v < 2 ^ 16 → ccd.scdLen = (encodeValueScd v).length →
       WriteMem.parse (encodeValueScd v) ccd = .ok v ∧ Pending.parse (encodeValueScd v) ccd = .ok v) ∧
     (∀ ls : List Nat, (∀ l ∈ ls, l < 2 ^ 16) → ccd.scdLen = (encodeStackedScd ls).length →
       WriteMemStacked.parse p (encodeStackedScd ls) ccd = .ok ls) := by
@@ -419,8 +435,9 @@ theorem ack_views_accept_encoded (p : Profile) (ccd : AckCcd) :
       unfold parseDataScd
       rw [if_neg (by omega), hl, List.take_length]
     exact ⟨this, this⟩
-  · intro v hv
-    exact ⟨encodeValueScd_parse v hv, encodeValueScd_parse v hv⟩
+  · intro v hv hl
+    have h4 : 4 ≤ ccd.scdLen := by rw [hl]; simp [encodeValueScd]
+    exact ⟨encodeValueScd_parse v ccd hv h4, encodeValueScd_parse v ccd hv h4⟩
   · intro ls hls hl
     rw [encodeStackedScd_length] at hl
     simp only [WriteMemStacked.parse, hl]
@@ -529,6 +546,18 @@ example : WriteMemStacked.parse .dev [0, 0, 3, 0, 0, 0, 10, 0]
 
 example : WriteMemStacked.parse .dev [0, 0, 3, 0, 0, 0, 10, 0]
     ⟨⟨0, .genCp .success⟩, .writeMemStacked, 1, 8⟩ = .ok [3, 10] := by decide
+
+/-- F-C08-3: a WriteMemAck header declaring `scd_len = 0` followed by `00 00 0a 00` has no
+WriteMem view (it used to return 10 from bytes outside the declared SCD); with
+`scd_len = 4` the view is 10. -/
+example : WriteMem.parse [0, 0, 10, 0] ⟨⟨0, .genCp .success⟩, .writeMem, 1, 0⟩ =
+    .err .invalidPacket := by decide
+
+example : valueViewOf [0x55, 0x33, 0x56, 0x43, 0, 0, 0x03, 0x08, 0, 0, 1, 0, 0, 0, 10, 0] = none ∧
+    valueViewOf [0x55, 0x33, 0x56, 0x43, 0, 0, 0x03, 0x08, 4, 0, 1, 0, 0, 0, 10, 0] = some 10 := by
+  decide
+
+example : WriteMem.parse [0, 0, 10, 0] ⟨⟨0, .genCp .success⟩, .writeMem, 1, 4⟩ = .ok 10 := by decide
 
 /-- two events (multi-event form), `event::tests::test_multi_event` -/
 example : EventPacket.parse
